@@ -323,6 +323,9 @@ REDUCED = dict(universes="all-minus-one", dirs=("FWD", "ANY", "BWD"), unks=("NBR
                via=("none", "selv", "sell"), res=("none", "sel"), res_with_via=("none",))
 LEAN = dict(universes="none-only", dirs=("FWD", "ANY", "BWD"), unks=("ERR",),
             via=("none",), res=("none",), res_with_via=("none",))
+# second pass over the first space with falsy vertices
+FALSY = dict(universes="all-minus-one", dirs=("FWD", "ANY"), unks=("NBR",),
+             via=("none", "selv"), res=("none", "sel"), res_with_via=("none",))
 # for the graph families (larger graphs): few universes, few starts
 FAMILY = dict(universes="few", starts="few", dirs=("FWD", "ANY", "BWD"), unks=("ERR",),
               via=("none", "selv"), res=("none", "sel"), res_with_via=("none",))
